@@ -934,3 +934,74 @@ def gen_derive():
 
 
 GENERATORS = GENERATORS + (('Derive', gen_derive),)
+
+
+# ---------------------------------------------------------------------------------------------------------------------
+
+def gen_dot():
+    """`visualize.lattice`: the body of `for concept in lattice._concepts:` as a sequence of DOT statements."""
+    tree = _src('visualize.py')
+    consts = {ast.unparse(st) for st in tree.body if isinstance(st, ast.Assign)}
+    for need in ("SORTKEYS = [lambda c: c.index]", "NAME_GETTERS = [lambda c: f'c{c.index:d}']"):
+        if need not in consts:
+            raise Decline('visualize: %r is gone' % need)
+    fn = _function(tree, 'lattice')
+    args = [a.arg for a in fn.args.args]
+    if args[:5] != ['lattice', 'filename', 'directory', 'render', 'view'] or 'make_object_label' not in args or 'make_property_label' not in args:
+        raise Decline('visualize.lattice: signature changed')
+    body = _nodoc(fn.body)
+    texts = [ast.unparse(s) for s in body]
+    for need in ('sortkey = SORTKEYS[0]', 'node_name = NAME_GETTERS[0]'):
+        if need not in texts:
+            raise Decline('visualize.lattice: %r is gone' % need)
+    loops = [s for s in body if isinstance(s, ast.For)]
+    if len(loops) != 1 or ast.unparse(loops[0].target) != 'concept' or ast.unparse(loops[0].iter) != 'lattice._concepts' or loops[0].orelse:
+        raise Decline('visualize.lattice: no unique loop over lattice._concepts')
+    if not isinstance(body[-1], ast.Return) or ast.unparse(body[-1].value) != 'dot':
+        raise Decline('visualize.lattice: does not return dot')
+    LABEL = {'headlabel': ('make_object_label', 'objects', 'objectLabel'),
+             'taillabel': ('make_property_label', 'properties', 'propertyLabel')}
+
+    def label_edge(st, attr):
+        """dot.edge(name, name, <head|tail>label=make_*_label(concept.<attr>), ...) -> DotItem constructor"""
+        if not (isinstance(st, ast.Expr) and isinstance(st.value, ast.Call) and ast.unparse(st.value.func) == 'dot.edge'
+                and [ast.unparse(a) for a in st.value.args] == ['name', 'name']):
+            raise Decline('unsupported statement in a label branch: %s' % ast.unparse(st)[:60])
+        found = None
+        for kw in st.value.keywords:
+            if kw.arg in LABEL:
+                cb, want_attr, ctor = LABEL[kw.arg]
+                if ast.unparse(kw.value) != '%s(concept.%s)' % (cb, want_attr) or found:
+                    raise Decline('label text is %s' % ast.unparse(kw.value))
+                found = (want_attr, ctor)
+        if not found or found[0] != attr:
+            raise Decline('the label edge guarded by concept.%s carries %r' % (attr, found))
+        return found[1]
+
+    lines = []
+    for st in loops[0].body:
+        t = ast.unparse(st)
+        if t == 'name = node_name(concept)':
+            continue
+        if t == 'dot.node(name)':
+            lines.append('  let out := out ++ [DotItem.node c.index]')
+        elif isinstance(st, ast.If) and not st.orelse and len(st.body) == 1 and ast.unparse(st.test) in ('concept.objects', 'concept.properties'):
+            attr = ast.unparse(st.test).split('.')[1]
+            ctor = label_edge(st.body[0], attr)
+            lines.append('  let out := if !c.%s.isEmpty then out ++ [DotItem.%s c.index c.%s] else out' % (attr, ctor, attr))
+        elif t == 'dot.edges(((name, node_name(c)) for c in sorted(concept.lower_neighbors, key=sortkey)))':
+            lines.append('  let out := out ++ (sortBy id c.lower).map (DotItem.edge c.index)')
+        else:
+            raise Decline('visualize.lattice: unsupported statement in the loop: %s' % t[:70])
+    if not any('DotItem.node' in l for l in lines):
+        raise Decline('visualize.lattice: no node statement')
+    return '\n'.join([
+        'import FCA.Model.Misc',
+        '/- GENERATED by harness/extract2.py from visualize.lattice in concepts/visualize.py — do not edit.',
+        '   Node names are `c<index>` (NAME_GETTERS[0]), edges go to the lower neighbors sorted by index (SORTKEYS[0]). -/',
+        'namespace FCA.Generated', '',
+        '/-- body of `for concept in lattice._concepts:`; `out` = the DOT statements so far -/',
+        'def dot_body (c : LConcept) (out : List DotItem) : List DotItem :='] + lines + ['  out', '', 'end FCA.Generated', ''])
+
+
+GENERATORS = GENERATORS + (('Dot', gen_dot),)
